@@ -67,6 +67,7 @@ func NewEngine(l *Loaded, eo EntryOpts, rc RunConfig) (*Engine, error) {
 		return nil, fmt.Errorf("entry %s not found", eo.Name)
 	}
 	e.budget = eo.Budget
+	e.pointTrace = os.Getenv("GOSX_POINT_TRACE") != ""
 	e.noNumStr = eo.NoNumStr
 	e.maxGors = eo.MaxGors
 	e.raceOn = eo.Race || eo.Preempt > 0
